@@ -18,9 +18,9 @@ from vlib import tlc, tlaval, gorun, core
 
 PROPS = ['C14']
 HARNESS = ['zz_vs_sched.go', 'zz_lifecycle_test.go']
-INSTR_GATE = {"files": {"session.go": {"funcs": ["Session.Close"], "noLock": ["Session.Close"]},
+INSTR_GATE = {"files": {"session.go": {"funcs": ["Session.Close", "Session.OpenStream"], "noLock": ["Session.Close", "Session.OpenStream"]},
                         "queue.go": {"funcs": ["queue.put"]}}}
-GATED = ('open-in-close-window', 'flush-races-unmap')      # witnesses that need the instrumented build
+GATED = ('open-in-close-window', 'flush-races-unmap', 'open-register-after-close')      # witnesses that need the instrumented build
 SLUGS = ['no-close-callback-when-busy', 'open-nil-nil', 'flush-nil-after-close', 'write-after-teardown-faults',
          'stream-op-races-unmap', 'accept-after-close']
 
@@ -165,7 +165,7 @@ def run_go(ck, job, instr=None, timeout=1500):
         g = gorun.run_harness('^TestVS_Lifecycle$', HARNESS, instr, inputs={'job': job}, timeout=timeout, workdir=wd)
         if g.result is not None:
             return g.result, None
-        crashed = ('panic:' in g.out or 'fatal error' in g.out or 'unexpected fault address' in g.out or 'SIGSEGV' in g.out)
+        crashed = not g.timeout and ('panic:' in g.out or 'fatal error' in g.out or 'unexpected fault address' in g.out or 'SIGSEGV' in g.out)
         inflight = []
         try:
             started, ended = [], set()
@@ -183,9 +183,9 @@ def run_go(ck, job, instr=None, timeout=1500):
         shutil.rmtree(wd, ignore_errors=True)
 
 
-def harness(ck, job, known, instr=None, label=''):
+def harness(ck, job, known, instr=None, label='', timeout=1500):
     """returns list of schedule results; converts crashes of the test process into violations of the behaviour that caused them"""
-    res, crash = run_go(ck, job, instr)
+    res, crash = run_go(ck, job, instr, timeout=timeout)
     if res is not None:
         return res['results']
     if not crash['crashed'] or not crash['inflight']:
@@ -257,6 +257,9 @@ WITNESS = {
     # a Flush that has passed its state check is parked inside queue.put while Close + teardown unmap the queue (child process)
     'stream-op-races-unmap': dict(streams=1, cb=[], gate='flush-races-unmap', steps=[]),
     'open-nil-nil': dict(streams=1, cb=[], gate='open-in-close-window', steps=[]),
+    # regression case (no finding on HEAD): an OpenStream that passed its closed check registers its stream after Close()
+    # returned; the teardown lambda must close that stream as well
+    'late-open-not-closed': dict(streams=1, cb=[], gate='open-register-after-close', steps=[]),
     # a stream of the client is still queued in acceptCh when the session is closed: AcceptStream afterwards may return it
     'accept-after-close': dict(streams=1, cb=[], role='server', steps=[('PeerOpenNew', 0, ''), ('Events', 0, ''), ('CloseCall', 0, 'c1'),
                                                                         ('Lambdas', 0, ''), ('Lambdas', 0, '')]),
@@ -360,7 +363,7 @@ def run(prop, tier, seed, replay=None):
                   C([1, 2], [1, 2], ['c1'], T, 2, 1, F, F, 2),
                   C([1, 2, 3], [], ['c1', 'c2'], T, 1, 0, F, F, 2, late=[2, 3])]
         fine_cfgs.append(C([1, 2], [], ['c1', 'c2'], F, 0, 0, F, F, 1, late=[1, 2]))
-        limit = 1500
+        limit = 1000
 
     # ---- design check of every interleaving (fine grained) and the gate witness run beside the replay
     fine_out, gate_out, graphs = [], [], {}
@@ -498,7 +501,7 @@ def run(prop, tier, seed, replay=None):
 
     job = {'mode': 'manual', 'schedules': all_scheds + wits, 'known': SLUGS, 'workers': 6, 'wait_ms': wait_ms, 'stop_after': 3}
     ck.log('replaying %d TLC behaviours + %d witnesses on real sessions (harness-driven event loops)' % (len(all_scheds), len(wits)))
-    results = harness(ck, job, known, None, 'manual replay')
+    results = harness(ck, job, known, None, 'manual replay', timeout=1500 if quick else 4000)
     if results is None:
         join_all()
         return ck.finish()
